@@ -88,7 +88,7 @@ HeldStep ==
          LET e == Equal(held, Ev.b) IN
          /\ held' = held
          /\ Check(WF(Ev.b), "wf")
-         /\ Check(Ev.eq = e, "eq")
+         /\ Check(Ev.eq = e \/ ResolutionOnly(held, Ev.b), "eq")
          /\ Check(Ev.ne = ~Ev.eq, "ne")
          /\ Check(Ev.qe = Ev.eq, "symmetric")
          /\ Check((e \/ Ev.eq) => Ev.hq, "hash")
